@@ -103,6 +103,18 @@ def gen_cases(rng, tier):
             B = rng.choice([70000, 131072])
             for s_ in ([], [10 ** 6], [65535, 10 ** 6], [rng.randrange(65000, 66000), 10 ** 6]):
                 yield case("req_run", [B], [3], w, s_), ["req", "huge-skip"]
+    # the plain hand-off stream parser -> request parser ([6, k, 2]: into_request_parser() as the parser stands) with stream data parsed
+    # into the buffer and consumed in full / in part / not at all: the next request and the remainder depend on the bytes alone
+    for _ in range(60 if quick else 3000):
+        rid = 1
+        body = [rng.randrange(256) for _ in range(rng.choice([1, 9, 57, 120]))]
+        recs = minimal_preamble(rid, 1, flags=1) + streams_part(rng, rid, 1, {STDIN: body}, junk_rate=0.1, no_begin=True)
+        nxt = flat(minimal_preamble(2, 1, pairs=[(b"K", b"v")])) + [rng.randrange(256) for _ in range(4)]
+        w = flat(recs) + nxt
+        ops = [[0, rng.choice([10 ** 6, len(w), rng.randrange(1, len(w))])] for _ in range(rng.randrange(1, 4))] + [[0, 10 ** 6]]
+        ops += rng.choice([[], [[2, 10 ** 6]], [[2, max(1, len(body) // 2)]], [[2, 1], [3]]])
+        ops += [[6, 0, 2], [8]]
+        yield "str_run " + " ".join(fmt_arg(x) for x in [[rng.choice([256, 8192])], [3], w] + ops), ["str", "plain-handoff"]
     # all 256 type values right after a valid preamble and in idle state
     for t in range(256):
         rec = record(t, rng.choice([0, 1]), [rng.randrange(256) for _ in range(rng.choice([0, 8, 13]))], rng.choice([0, 5]))
@@ -124,7 +136,7 @@ def nontrivial(line, tags):
 
 
 def min_classes(tier):
-    return {"mutated": 1000, "random": 300, "all-types": 512, "conversion": 100, "sched1": 400}
+    return {"mutated": 1000, "random": 300, "all-types": 512, "conversion": 100, "sched1": 400, "plain-handoff": 60}
 
 
 def oracle(line, impl_line):
@@ -153,6 +165,15 @@ def oracle(line, impl_line):
             if i >= len(o):
                 break
             tag = o[i][0]
+            if tag == 7 and op[2:3] == [2] and fatal is None:
+                # class plain-handoff: well-formed keep-alive traffic, the parser stood at a record boundary or not: at a boundary the
+                # conversion must succeed and the next request parser must deliver request 2, whatever part of the stream data the
+                # caller had consumed; off a boundary it is refused ([7, 5])
+                if o[i][1:2] == [5]:
+                    break
+                if o[i][1:3] != [0, 1] or o[i + 3][0] != 2:
+                    return "after the plain hand-off the next request was not parsed (%s): the outcome depends on how much stream data the caller had consumed" % o[i][1:]
+                break
             if tag in (7, 8, 9, 999996):
                 break
             if tag == 10:
